@@ -22,7 +22,7 @@
 //!            w<j> signal event j from outside every task | z drop all stored wakers
 //! Output: the host log with the driver's observations in the same total order
 //!   `>start:T tnew:T tfree:T start:T=CODE cb:T:E0,E1,E2=CODE bon:T spawn:B bfin:B bdrop:B treturn:B
-//!    opdone:K call:K=PACKED lift:K fwait:J:B wflag:J xwake:J` and `PANIC:<message>` if the runtime panicked.
+//!    opdone:K call:K=PACKED lift:K fwait:J:B wflag:J xwake:J ystep:B` and `PANIC:<message>` if the runtime panicked.
 //! (`tnew`/`tfree` = allocation / release of the `Box<TaskState>`, found by address through `WatchAlloc`.)
 use rtmock::{alloc, drive, host};
 use std::alloc::Layout;
@@ -301,7 +301,7 @@ fn body(b: usize, root: bool) -> BodyFut {
         for s in steps {
             match s {
                 Step::Await(k) => if op_fresh(k) { await_op(k).await },
-                Step::Yield => wit_bindgen::yield_async().await,
+                Step::Yield => { host::log(format!("ystep:{bid}")); wit_bindgen::yield_async().await }
                 Step::Spawn(b2) => if cfg!(feature = "async-spawn") && !hw(|h| h.created.contains(&b2)) {
                     host::log(format!("spawn:{b2}"));
                     hw(|h| h.created.push(b2));
